@@ -26,6 +26,7 @@ import (
 	"go/printer"
 	"go/token"
 	"go/types"
+	"golang.org/x/tools/go/ast/astutil"
 	"os"
 	"reflect"
 	"sort"
@@ -178,7 +179,10 @@ func inlineNewHelpers(roots []*packages.Package, byPath map[string]*packages.Pac
 		n := inlinePackage(pk, fset)
 		total += n
 	}
-	if total == 0 {
+	// a threading attempt labels the enclosing loop before it knows that the expansion goes through; labels that ended up
+	// unused are taken out again (go/types rejects them, and with no expansion at all the tree is not re-checked)
+	stripped, kept := stripUnusedGeneratedLabels(roots)
+	if total == 0 && stripped == 0 && kept == 0 {
 		return 0, nil
 	}
 	if dir := os.Getenv("MOSVERIF_DUMP_INLINE"); dir != "" {
@@ -199,14 +203,50 @@ func inlineNewHelpers(roots []*packages.Package, byPath map[string]*packages.Pac
 	return total, nil
 }
 
+// stripUnusedGeneratedLabels removes `T_inlN:` labels no branch statement refers to; it returns how many it removed.
+func stripUnusedGeneratedLabels(roots []*packages.Package) (n, kept int) {
+	for _, pk := range roots {
+		for _, f := range pk.Syntax {
+			used := map[string]bool{}
+			has := false
+			ast.Inspect(f, func(m ast.Node) bool {
+				switch x := m.(type) {
+				case *ast.BranchStmt:
+					if x.Label != nil {
+						used[x.Label.Name] = true
+					}
+				case *ast.LabeledStmt:
+					if strings.HasPrefix(x.Label.Name, "T_inl") {
+						has = true
+					}
+				}
+				return true
+			})
+			if !has {
+				continue
+			}
+			astutil.Apply(f, func(c *astutil.Cursor) bool {
+				if ls, ok := c.Node().(*ast.LabeledStmt); ok && strings.HasPrefix(ls.Label.Name, "T_inl") && !used[ls.Label.Name] {
+					c.Replace(ls.Stmt)
+					n++
+				} else if ok && strings.HasPrefix(ls.Label.Name, "T_inl") {
+					kept++
+				}
+				return true
+			}, nil)
+		}
+	}
+	return n, kept
+}
+
 type inliner struct {
-	tailMode bool // the call being expanded is the whole operand of a `return`: the helper's returns become the caller's
-	nameObj map[string]types.Object // caller variables that receive results directly (threaded expansion): name -> object
-	pk    *packages.Package
-	fset  *token.FileSet
-	info  *types.Info
-	seq   int
-	cands map[types.Object]*inlCand
+	tailMode bool                    // the call being expanded is the whole operand of a `return`: the helper's returns become the caller's
+	nameObj  map[string]types.Object // caller variables that receive results directly (threaded expansion): name -> object
+	pk       *packages.Package
+	fset     *token.FileSet
+	info     *types.Info
+	seq      int
+	cands    map[types.Object]*inlCand
 }
 
 func inlinePackage(pk *packages.Package, fset *token.FileSet) int {
@@ -1356,8 +1396,8 @@ func (in *inliner) expandT(ce *ast.CallExpr, assign *ast.AssignStmt, tok token.T
 			}
 		}
 	}
-	var pre []ast.Stmt   // declarations placed before the block (result temporaries)
-	var bind []ast.Stmt  // inside the block, before the body
+	var pre []ast.Stmt  // declarations placed before the block (result temporaries)
+	var bind []ast.Stmt // inside the block, before the body
 	var lhs, rhs []ast.Expr
 	// receiver
 	if c.decl != nil && c.decl.Recv != nil {
@@ -1385,9 +1425,10 @@ func (in *inliner) expandT(ce *ast.CallExpr, assign *ast.AssignStmt, tok token.T
 				name = rf.Names[0].Name + tag
 			}
 		}
-		bind = append(bind, varDecl(name, copyNode(rf.Type, nil, nil).(ast.Expr), rf.Type.End()))
-		lhs = append(lhs, ast.NewIdent(name))
-		rhs = append(rhs, rx)
+		// bound with := (the operand has exactly the receiver's type after the & / * adjustment above), so that the
+		// receiver's type need not be nameable at the call site (a loop variable `rule` may shadow the type `rule`)
+		bind = append(bind, &ast.AssignStmt{Lhs: []ast.Expr{ast.NewIdent(name)}, Tok: token.DEFINE, Rhs: []ast.Expr{rx}})
+		bind = append(bind, &ast.AssignStmt{Lhs: []ast.Expr{ast.NewIdent("_")}, Tok: token.ASSIGN, Rhs: []ast.Expr{ast.NewIdent(name)}})
 	}
 	// parameters
 	ai := 0
@@ -1789,9 +1830,6 @@ func (in *inliner) namesResolveAt(c *inlCand, pos token.Pos, file *ast.File) boo
 		})
 	}
 	check(c.decl.Type)
-	if c.decl.Recv != nil {
-		check(c.decl.Recv)
-	}
 	check(c.decl.Body)
 	if !ok {
 		return false
